@@ -24,6 +24,9 @@ desc = {
  'all160_seed0.log': 'all 160, seed 0, harness after the round-4 extensions',
  'round5_first_run_seed0.log': 'round 5 (I, J) FIRST RUN against the harness that had never seen them: 25 of 40 (1 of them without a failing input)',
  'all200_seed0.log': 'all 200, seed 0, harness after the round-5 extensions',
+ 'round6_first_run_seed0.log': 'round 6 (K, L) FIRST RUN against the harness that had never seen them: 20 of 40 (2 of them without a failing input)',
+ 'all240_seed0.log': 'all 240, seed 0, harness after the round-6 extensions',
+ 'all240_seed1.log': 'all 240, seed 1 (the seed `vp check` uses), same harness',
  'all200_seed1.log': 'all 200, seed 1 (the seed `vp check` uses), same harness',
  'all160_seed1.log': 'all 160, seed 1 (the seed `vp check` uses), same harness',
 }
@@ -36,7 +39,9 @@ out += ['', 'Every MISSED entry of the multi-seed sweeps was traced to a trigger
         'all160 sweeps (C01C seed 0, C15G seed 1, C18G seed 1) were re-run after the re-weighting: caught with seeds 0 and 1 '
         '(48/52, 12/109, 73/82 failing cases); the four MISSED entries of the all200 sweeps (C06A seed 0, C04D / C06I / C10C seed 1) likewise: '
         'caught with seeds 0-3 after the re-weighting (store histories on packed lists with zero tails and on bit vectors, unions '
-        'listing one type at several selectors, gap edits of container encodings).', '',
+        'listing one type at several selectors, gap edits of container encodings); the four MISSED entries of the all240 sweeps '
+        '(C06H / C14A seed 0, C02L / C17I seed 1) likewise: caught with seeds 0-2 (C06H: 0-3) after more lazy store histories on packed '
+        'lists, more byte-like constructor cases, a handful of shared container class names, and union value writes on partial trees.', '',
         '| change | file(s) touched | ' + ' | '.join(l.replace('.log', '').replace('rounds123_', 'r123 ').replace('_', ' ') for l in logs) + ' |',
         '|---|---|' + '---|' * len(logs)]
 for mid, v in rows.items():
